@@ -291,6 +291,9 @@ func cmdCheck(args []string) int {
 			ps.N++
 			ps.S += r.Seconds
 		}
+		if o.Parts > 1 {
+			o.ClauseSrc = fmt.Sprintf("(conjunct %d of %d) %s", o.Part, o.Parts, o.ClauseSrc)
+		}
 		reports = append(reports, oblReport{Name: o.Name, Kind: o.Kind, Clause: o.ClauseSrc, Pos: o.Pos, Status: r.Status, Solver: r.Solver, Seconds: round3(r.Seconds)})
 		if o.Kind == "cover" {
 			// vacuity guard, not a proof obligation. For return sites only a definite `unsat` (the
@@ -444,6 +447,7 @@ func cmdCheck(args []string) int {
 		"bounded_notes":            meta.Bounded,
 		"abstraction_notes":        notes,
 		"assumed_contracts_used":   trusted,
+		"assumed_clauses_in_contracts": e.CS.AssumedClauses,
 		"expected_obligations":     len(expected[prop]),
 		"expected_missing":         missing,
 	}
@@ -565,11 +569,34 @@ func writeEvidence(path, prop, tier string, seed int, reports []oblReport, extra
 	for _, t := range trusted {
 		assumptions = append(assumptions, t)
 	}
+	level := "proof"
+	var claims map[string]struct {
+		Category string `json:"category"`
+		Text     string `json:"text"`
+	}
+	if b, err := os.ReadFile(filepath.Join(VerifDir, "tools", "claims.json")); err == nil {
+		json.Unmarshal(b, &claims)
+		if c, ok := claims[prop]; ok && c.Category != "" {
+			level = c.Category
+		}
+	}
+	if level != "proof" || total == 0 {
+		if total == 0 {
+			level = "other"
+		}
+		nb := 0
+		if bc, ok := cov["bounded_checks"].([]boundedResult); ok {
+			for _, b := range bc {
+				nb += b.Cases
+			}
+		}
+		cov["explanation"] = fmt.Sprintf("bounded stand-ins (exhaustive runs of the real functions over stated finite universes, %d cases this run) plus %d deductive proof obligations; the bounded part is labelled bounded and is not counted as proved. %s", nb, total, claims[prop].Text)
+	}
 	ev := map[string]interface{}{
 		"property_id": prop,
 		"tier":        tier,
 		"seed":        seed,
-		"level":       "proof",
+		"level":       level,
 		"coverage":    cov,
 		"assumptions": assumptions,
 		"wall_s":      round3(wall),
